@@ -92,7 +92,7 @@ ROWS = {
        'acknowledgement is never returned and makes the transport read on; after ANY history of re-routings of one Target the '
        'request traverses exactly the hops of the path configured last (reroute_peel_all); on every native transport: RMCP emits the nest (any depth), ipmb-dev and Aardvark (which do not bridge) emit the plain request for a local target or refuse with NotSupportedError before anything is written (routed_request_rmcp_is_nest, routed_request_i2c_nest_or_nothing, stated over C04\'s step models via Lemmas/LoopsBridge; i2c_routing_ignored_asShipped_counterexample); 28 theorems.',
   note='Model/Bridge.lean hand-written on top of the generated C03 framing model; Send Message ids and channel-byte bit '
-       'positions regenerated from the live SendMessageReq class; tie by differential run (depth 1..8)',
+       'positions regenerated from the live SendMessageReq class; tie by differential run (depth 1..8); retransmissions: Model.Bridge.retryBridged with theorems retransmission_reply_returned / _error_reported / _budget (any number of lost or acknowledged-only attempts within the budget, then the reply) and a stream on the real Rmcp(max_retries >= 1) whose fake socket is the specification chain of bridges answering what each attempt carried',
   tech='Lean 4 proof (induction on the routing list) + translator + differential correspondence'),
  'C10': dict(
   text='Lean theorems for every device content, area size, offset, length and per-request limit >= 2: read_fru_data '
@@ -216,8 +216,8 @@ ROWS = {
        'without a Python error" is checked per entry on the stub profiles (a Python error on a fault-free run is a violation), not proved; histories of 2..4 consecutive main() runs in one process with every option given in one run and absent in the next: each run must equal the same run alone in a new process',
   tech='Lean 4 proof (decide +kernel over generated table; lookup/getopt lemmas) + translator + differential correspondence (CLI vs API)'),
  'C07': dict(
-  text='102 Lean theorems about per-operation models of 76 pyipmi.Ipmi operations (device id/GUID/watchdog, chassis and '
-       'boot options, LAN, users, sensors/events, PICMG LED/fan/port/power/activation, HPM status) played against a '
+  text='107 Lean theorems about per-operation models of 79 pyipmi.Ipmi operations (device id/GUID/watchdog, chassis and '
+       'boot options, LAN, users, sensors/events, PICMG LED/fan/port/power/activation, HPM status, and the three DCMI reads: capabilities, power reading, sensor record ids - the last one exact on every conforming BMC as the first eight ids per entity, equal to the full list when no entity has more than eight, with a counter-example theorem for nine because the library does not page) played against a '
        'byte-level reference BMC: for ALL in-range arguments and ALL conforming BMC states every write leaves exactly '
        'the state the arguments denote and every read returns the BMC\'s current state for the addressed object '
        '(channel, user, sensor+LUN, FRU, LED, port); by induction over ANY history the k-th result is the getter on '
@@ -230,7 +230,7 @@ ROWS = {
        'on every call of 1-30-call histories by request bytes, return value/exception and BMC state digest; reference '
        'BMC Spec/Bmc.lean (permissive reading of IPMI 2.0 / PICMG 3.0 / HPM.1) is the oracle; executable hypothesis '
        'checks wfB/inRangeB are proved sound and evaluated on every exercised (state, call) pair; `open` and operations '
-       'owned by other properties (SDR, SEL, FRU, HPM upgrade, DCMI, raw) are exercised-only or not exercised here',
+       'owned by other properties (SDR, SEL, FRU, HPM upgrade, raw) are exercised-only or not exercised here; DCMI states are generated with 0..8 sensors per entity (the unpaged walk is an observation outside the operation families the property enumerates)',
   tech='Lean 4 proof (symbolic evaluation of each exchange, induction over histories, decide +kernel over generated tables) + translators + closed-loop history correspondence against the Lean reference BMC'),
  'C08': dict(
   text='62 Lean theorems over interaction programs: every one of the 145 public operations of pyipmi.Ipmi is covered '
